@@ -29,7 +29,7 @@ RULE = ("scenarios: file accessor (deep/flat x gzip/no-gzip) with 2 chunks "
         "{write + close a new shard, rewrite + close the existing shard, "
         "read a chunk, rewrite while surviving failed stores (the caller "
         "catches the documented error classes, stores the remaining chunks "
-        "and closes)}, plus scenarios in which the temporary buffer "
+        "and closes)}, the same with chunks of 8000 bytes, plus scenarios in which the temporary buffer "
         "files of the on-disk strategy are points as well. Points = every system call under the dataset root "
         "issued by the operation; menu per call kind: errno {ENOSPC, EACCES, "
         "EIO, EROFS | EIO, EACCES, ENOENT}, short write of 1 and n-1 bytes "
@@ -107,14 +107,34 @@ def sharded_scenarios():
                     "op": op, "watch_tmp": True})
     out.append({"kind": "sharded", "strategy": "on disk", "enc": "gzip",
                 "op": "rewrite-shard-keep-going"})
+    # 8000-byte chunks
+    for strategy in ("in memory", "on disk"):
+        for op in ("rewrite-shard", "write-new-shard", "read"):
+            out.append({"kind": "sharded", "strategy": strategy,
+                        "enc": "raw", "op": op, "big": True})
     return out
 
 
 # ---- sharded helpers --------------------------------------------------------
 SH_SIZE = [4, 2, 1]
+# scenarios with "big": the same 4x2x1 chunk grid with chunks of 20^3 uint8
+# voxels (8000 bytes each: a shard's data area exceeds 8 KiB and chunk
+# boundaries do not coincide with the 4096/8192-byte write blocks)
+_BIG = [False]
+BIG_CS = 20
 
 
 def sh_info(enc):
+    if _BIG[0]:
+        info = sh_info_small(enc)
+        info["data_type"] = "uint8"
+        info["scales"][0]["size"] = [s * BIG_CS for s in SH_SIZE]
+        info["scales"][0]["chunk_sizes"] = [[BIG_CS] * 3]
+        return info
+    return sh_info_small(enc)
+
+
+def sh_info_small(enc):
     return {"type": "image", "num_channels": 1, "data_type": "uint16",
             "scales": [{"key": KEY, "size": SH_SIZE,
                         "chunk_sizes": [[1, 1, 1]], "resolution": [1, 1, 1],
@@ -134,11 +154,18 @@ def sh_chunks():
         for x in range(4):
             cid = morton_spec.compressed_morton_code((x, y, 0), (4, 2, 1))
             shard, _ = morton_spec.route(cid, 1, 1, 1)
-            out.append(((x, x + 1, y, y + 1, 0, 1), shard))
+            k = BIG_CS if _BIG[0] else 1
+            out.append(((x * k, (x + 1) * k, y * k, (y + 1) * k, 0, k),
+                        shard))
     return out
 
 
 def sh_arr(cc, version):
+    if _BIG[0]:
+        n = BIG_CS ** 3
+        base = 40 * version + 7 * (cc[0] // BIG_CS) + 3 * (cc[2] // BIG_CS)
+        return ((np.arange(n) * 5 + base) % 251).astype("uint8").reshape(
+            1, BIG_CS, BIG_CS, BIG_CS)
     return np.array([[[[100 * version + 10 * cc[0] + cc[2] + 1]]]],
                     dtype="uint16")
 
@@ -199,6 +226,7 @@ def setup(d, scn):
 
 def operation(d, scn, model):
     """the operation under test; returns (result, in-flight versions)"""
+    _BIG[0] = bool(scn.get("big"))
     op = scn["op"]
     if scn["kind"] == "file":
         dt = info_file(scn["encoding"])["data_type"]
@@ -311,6 +339,7 @@ def execute(scn, deviations, use_sim=True):
     """one execution. returns dict(outcome, points, tree, obs, applied, ...)
     """
     d = sandbox.fresh_dir("c18")
+    _BIG[0] = bool(scn.get("big"))
     try:
         model = setup(d, scn)
         tmpd = None
@@ -640,9 +669,18 @@ def conformance_unit(col, items):
             sandbox.rm(d)
         so = sim_run["outcome"]
         sim_kind = {"ok": "ok", "exc": "exc", "killed": "killed"}[so[0]]
+        if scn.get("big"):
+            # writes larger than the 8 KiB buffer are cut into system calls
+            # differently by the C and the pure-Python buffered writers, so
+            # the k-th write() does not carry the same bytes: only outcome
+            # and file names are compared for these scenarios
+            trees_agree = ([p for p, _ in real_tree]
+                           == [p for p, _ in sim_run["tree_pre"]])
+        else:
+            trees_agree = real_tree == sim_run["tree_pre"]
         same = (res["outcome"] == sim_kind
                 and (sim_kind != "exc" or res.get("type") == so[1])
-                and real_tree == sim_run["tree_pre"])
+                and trees_agree)
         if not same:
             raise RuntimeError(
                 "seam/kernel mismatch for %r point %d %r dev %r: seam -> "
